@@ -69,8 +69,8 @@ def call_with_watchdog(fn, timeout, what="call"):
 class ServerHandle(object):
     """One running server with capture of the texts at its dispatcher entry"""
 
-    def __init__(self, kind, family, pool_size=None, config=None):
-        from jsonrpclib.SimpleJSONRPCServer import PooledJSONRPCServer, SimpleJSONRPCServer
+    def __init__(self, kind, family, pool_size=None, config=None, keepalive=False):
+        from jsonrpclib.SimpleJSONRPCServer import PooledJSONRPCServer, SimpleJSONRPCServer, SimpleJSONRPCRequestHandler
         from jsonrpclib.config import Config
         from jsonrpclib.threadpool import ThreadPool
 
@@ -86,13 +86,21 @@ class ServerHandle(object):
             addr, fam = self.path, socket.AF_UNIX
         self.pool = None
 
+        self.keepalive = keepalive
+        extra = {}
+        if keepalive:
+            # the standard way to let one connection carry several requests: a handler that speaks HTTP/1.1
+            class KeepAliveHandler(SimpleJSONRPCRequestHandler):
+                protocol_version = "HTTP/1.1"
+            extra["requestHandler"] = KeepAliveHandler
+
         def build():
             if kind == "simple":
-                return SimpleJSONRPCServer(addr, logRequests=False, address_family=fam, config=cfg)
+                return SimpleJSONRPCServer(addr, logRequests=False, address_family=fam, config=cfg, **extra)
             if pool_size is not None:
                 self.pool = ThreadPool(pool_size, 0, logname="req-pool")
                 self.pool.start()
-            return PooledJSONRPCServer(addr, logRequests=False, address_family=fam, config=cfg, thread_pool=self.pool)
+            return PooledJSONRPCServer(addr, logRequests=False, address_family=fam, config=cfg, thread_pool=self.pool, **extra)
 
         self.server = call_with_watchdog(build, 20, "server constructor")
         handle = self
@@ -138,6 +146,15 @@ class Farm(object):
 
     SPECS = [("simple", "tcp", None), ("simple", "unix", None), ("pooled", "tcp", None),
              ("pooled", "unix", 1), ("pooled", "tcp", 3), ("pooled", "unix", None)]
+    # servers whose handler keeps connections alive (several requests per connection)
+    KEEPALIVE_SPECS = [("simple", "tcp", None, None, True), ("pooled", "tcp", 2, None, True), ("pooled", "unix", None, None, True),
+                       ("simple", "unix", None, None, True)]
+
+    def get_keepalive(self, i):
+        spec = self.KEEPALIVE_SPECS[i % len(self.KEEPALIVE_SPECS)]
+        if spec not in self.handles:
+            self.handles[spec] = ServerHandle(*spec)
+        return self.handles[spec]
 
     def __init__(self):
         self.handles = {}
